@@ -358,6 +358,11 @@ func (r *sysRun) start() bool {
 	r.os.Behave = r.defaultBehave
 	r.tty = simtty.New(plan.Cols, plan.Rows, plan.CurRow)
 	r.tty.OnDSR = func(row, col int) {
+		if plan.DsrMs < 0 {
+			// a terminal (or a bare pty) that does not answer the cursor position request
+			c.count("fault.tty_no_dsr_answer", 1)
+			return
+		}
 		// the terminal answers the cursor-position request through the input queue
 		r.tty.FeedLocked([]byte(fmt.Sprintf("\x1b[%d;%dR", row, col)))
 	}
